@@ -1,5 +1,309 @@
-(* placeholder while the proofs are being written *)
-From Coq Require Import ZArith.
-From Urwid Require Import Scrollable.
-Theorem placeholder_c20 : (0 <= 0)%Z. Proof. apply Z.le_refl. Qed.
-Print Assumptions placeholder_c20.
+(* C20 - Scrollable views show the right slice and scrollbars reflect the position.
+   Only statements here; every proof is [exact <lemma>] into Proofs/Scroll*.v and Proofs/ThumbPrimCheck.v.
+
+   Model: Model/Scrollable.v (hand-written, tied to the code by the extracted-model correspondence on every run);
+   its position arithmetic [adjust_trim_top_gen] is regenerated from urwid/widget/scrollable.py on every run.
+   The wrapped widget is external: its canvas size, cursor, selectable(), key and mouse answers are universally
+   quantified observations ([cobs], [kobs], [bobs]).  Floats: Model/ScrollFloat.v (exact rationals + proved rounding). *)
+From Coq Require Import ZArith QArith List Bool.
+Import ListNotations.
+From Urwid Require Import PyBase ScrollBase scrollable_gen ScrollFloat Scrollable
+  ScrollableProofs ScrollFloatProofs ScrollBarProofs ThumbPrimCheck.
+Open Scope Z_scope.
+
+(* ================================================================== Scrollable *)
+
+(* --- scroll_pos_range + scroll_shows_slice, every state, every wrapped canvas, view height >= 1:
+       render never raises; it shows rows [p, p+height) of the wrapped widget's full rendering [full] with
+       0 <= p <= max 0 (total - height), followed by blank rows only when total < height; the result has exactly
+       [maxrow] rows.  No hypothesis on the state: it covers every history (any set_scrollpos value, any keys). *)
+Theorem scroll_pos_range_and_shows_slice :
+  forall (A : Type) (blank : A) st maxcol maxrow ob (full : list A),
+    1 <= maxrow -> ob_ok ob -> zlen full = c_rows ob ->
+    exists st' v,
+      s_render st maxcol maxrow ob = Ok (st', v) /\
+      0 <= v_top v <= Z.max 0 (zlen full - maxrow) /\
+      view_rows blank full v = spec_rows blank full (v_top v) maxrow /\
+      zlen (view_rows blank full v) = maxrow.
+Proof. exact @s_render_rows. Qed.
+Print Assumptions scroll_pos_range_and_shows_slice.
+
+(* --- the same with the column bookkeeping: blank columns only when the content is narrower, columns cut only
+       when it is wider; and the link between the window shown and the state left behind *)
+Theorem scroll_view_geometry :
+  forall st maxcol maxrow ob,
+    1 <= maxrow -> ob_ok ob ->
+    exists st' v,
+      s_render st maxcol maxrow ob = Ok (st', v) /\
+      0 <= v_top v <= Z.max 0 (c_rows ob - maxrow) /\
+      v_shown v = Z.min maxrow (c_rows ob - v_top v) /\
+      v_blank v = Z.max 0 (maxrow - c_rows ob) /\
+      v_padr v = Z.max 0 (maxcol - c_cols ob) /\
+      v_trimr v = Z.max 0 (c_cols ob - maxcol) /\
+      (fits ob maxcol maxrow = false -> trim_top st' = v_top v) /\
+      (fits ob maxcol maxrow = true -> st' = st).
+Proof. exact s_render_total. Qed.
+Print Assumptions scroll_view_geometry.
+
+(* --- scroll_reports_p, FULL statement: after every render the reported position (get_scrollpos = _trim_top)
+       is the p of the window shown and lies in range.  This is FALSE of the faithful model (and of the code). *)
+Definition scroll_reports_p_full : Prop :=
+  forall st maxcol maxrow ob st' v,
+    1 <= maxrow -> ob_ok ob -> s_render st maxcol maxrow ob = Ok (st', v) ->
+    trim_top st' = v_top v /\ 0 <= trim_top st' <= Z.max 0 (c_rows ob - maxrow).
+
+(* refuted: set_scrollpos(5), then render one line of content in a 4x3 view: rows 0.. are shown, 5 is reported
+   (Scrollable.render returns early when everything fits, before _adjust_trim_top).  Replayed on the
+   implementation: corpus/C20/known_stale_pos.json; recorded as known finding C20-stale-scrollpos-when-content-fits. *)
+Theorem scroll_reports_p_refuted :
+  exists st maxcol maxrow ob st' v,
+    1 <= maxrow /\ ob_ok ob /\ s_render st maxcol maxrow ob = Ok (st', v) /\
+    (trim_top st' <> v_top v \/ ~ (0 <= trim_top st' <= Z.max 0 (c_rows ob - maxrow))).
+Proof. exact reports_p_counterexample. Qed.
+Print Assumptions scroll_reports_p_refuted.
+
+(* what does hold (scroll_reports_p_partial): whenever the render has to trim - the content is higher or wider
+   than the view - the reported position is the p shown, it is in range, the pending action is consumed,
+   exactly [maxrow] rows of content are shown when there are that many *)
+Theorem scroll_reports_p_partial :
+  forall st maxcol maxrow ob,
+    1 <= maxrow -> ob_ok ob -> fits ob maxcol maxrow = false ->
+    exists st' v,
+      s_render st maxcol maxrow ob = Ok (st', v) /\
+      0 <= trim_top st' <= Z.max 0 (c_rows ob - maxrow) /\
+      action st' = ANone /\
+      rows_cached st' = rows_cached st /\
+      v_top v = trim_top st' /\
+      v_shown v = Z.min maxrow (c_rows ob) /\
+      v_blank v = Z.max 0 (maxrow - c_rows ob) /\
+      v_padr v = Z.max 0 (maxcol - c_cols ob) /\
+      v_trimr v = Z.max 0 (c_cols ob - maxcol).
+Proof. exact s_render_trims. Qed.
+Print Assumptions scroll_reports_p_partial.
+
+(* --- histories: after ANY sequence of renders/resizes, keys, mouse events and set_scrollpos(any integer)
+       (with any answers of the wrapped widget along the way) the next render is right.  [run_state] folds [step]. *)
+Theorem scroll_after_any_history :
+  forall w ops maxcol maxrow ob,
+    has_bar w = false -> 1 <= maxrow -> ob_ok (o_canvas ob) ->
+    let w1 := run_state w ops in
+    exists st' v,
+      s_render (w_inner w1) maxcol maxrow (o_canvas ob) = Ok (st', v) /\
+      w_inner (fst (step w1 (ORender maxcol maxrow ob))) = st' /\
+      0 <= v_top v <= Z.max 0 (c_rows (o_canvas ob) - maxrow) /\
+      v_shown v = Z.min maxrow (c_rows (o_canvas ob) - v_top v) /\
+      v_blank v = Z.max 0 (maxrow - c_rows (o_canvas ob)) /\
+      (fits (o_canvas ob) maxcol maxrow = false -> trim_top st' = v_top v).
+Proof. exact history_then_render. Qed.
+Print Assumptions scroll_after_any_history.
+
+(* --- rendering again with nothing changed shows the same window and reports the same position *)
+Theorem scroll_render_stable :
+  forall st maxcol maxrow ob st' v,
+    1 <= maxrow -> ob_ok ob ->
+    s_render st maxcol maxrow ob = Ok (st', v) ->
+    s_render st' maxcol maxrow ob = Ok (st', v).
+Proof. exact s_render_stable. Qed.
+Print Assumptions scroll_render_stable.
+
+(* the translated arithmetic on its own: any stored position, action, remembered cursor *)
+Theorem adjust_trim_top_in_range :
+  forall tp act old rows cur maxcol maxrow,
+    1 <= maxrow -> cursor_ok cur rows ->
+    match adjust_trim_top_gen tp act old rows cur (maxcol, maxrow) with
+    | (tp', act', old') => act' = ANone /\ 0 <= tp' <= Z.max 0 (rows - maxrow)
+    end.
+Proof. exact adjust_spec. Qed.
+Print Assumptions adjust_trim_top_in_range.
+
+(* ================================================================== keys and mouse events *)
+
+(* --- handled_keys_not_scrolled: a key the wrapped widget handles (it is offered the key because forwarding is
+       on or forced, and answers None) is reported handled, records no scroll action and moves nothing *)
+Theorem handled_keys_not_scrolled :
+  forall st force cmd ko,
+    (forward st || force) = true -> k_handled ko = true ->
+    let '(st', r) := s_keypress st force cmd ko in
+    kr_forwarded r = true /\ kr_none r = true /\
+    action st' = action st /\ trim_top st' = trim_top st /\ forward st' = forward st.
+Proof. exact s_keypress_handled. Qed.
+Print Assumptions handled_keys_not_scrolled.
+
+(* ... so the next render of a cursor-less wrapped canvas shows exactly what it would have shown without the key
+   (with a cursor, the view may follow the cursor the wrapped widget moved - that is not scrolling by the key) *)
+Theorem handled_key_then_same_view :
+  forall st force cmd ko maxcol maxrow ob,
+    (forward st || force) = true -> k_handled ko = true -> c_cursor ob = None ->
+    let st1 := fst (s_keypress st force cmd ko) in
+    match s_render st maxcol maxrow ob, s_render st1 maxcol maxrow ob with
+    | Ok (sa, va), Ok (sb, vb) => va = vb /\ trim_top sa = trim_top sb
+    | Err e1, Err e2 => e1 = e2
+    | _, _ => False
+    end.
+Proof. exact handled_key_same_view. Qed.
+Print Assumptions handled_key_then_same_view.
+
+(* keypress itself never moves the position, and offers the key exactly when forwarding is on or forced *)
+Theorem keypress_defers_to_render :
+  forall st force cmd ko,
+    trim_top (fst (s_keypress st force cmd ko)) = trim_top st /\
+    kr_forwarded (snd (s_keypress st force cmd ko)) = (forward st || force).
+Proof. intros. split; [apply s_keypress_position | apply s_keypress_forwarded]. Qed.
+Print Assumptions keypress_defers_to_render.
+
+(* --- mouse: an event the wrapped widget handles leaves the ScrollBar/Scrollable state untouched (the row it was
+       given is the view row plus the position); otherwise wheel up/down move the stored position by one *)
+Theorem handled_mouse_not_scrolled :
+  forall bs button row, b_mouse bs true button row true = (bs, (row + trim_top (inner bs), true)).
+Proof. exact b_mouse_handled. Qed.
+Print Assumptions handled_mouse_not_scrolled.
+
+Theorem wheel_scrolls_by_one_when_unhandled :
+  forall bs hm button row ch,
+    (hm && ch) = false ->
+    trim_top (inner (fst (b_mouse bs hm button row ch))) =
+      if button =? 4 then Z.max (trim_top (inner bs) - 1) 0
+      else if button =? 5 then trim_top (inner bs) + 1
+      else trim_top (inner bs).
+Proof. exact b_mouse_wheel. Qed.
+Print Assumptions wheel_scrolls_by_one_when_unhandled.
+
+(* ================================================================== ScrollBar *)
+
+(* --- bar_iff_overflow (no-bar half) + child_width: content needing at most [maxrow] rows at the full width is
+       rendered at the full size, no bar *)
+Theorem bar_absent_when_content_fits :
+  forall bs maxcol maxrow ob,
+    1 <= maxrow -> ob_ok (o_canvas ob) -> o_rows_full ob <= maxrow ->
+    exists bs' v,
+      b_render bs maxcol maxrow ob = Ok (bs', (maxcol, None, v)) /\
+      s_render (s_rows_max (inner bs) (o_rows_full ob)) maxcol maxrow (o_canvas ob) = Ok (inner bs', v) /\
+      ow_size bs' = (maxcol, maxrow).
+Proof. exact b_render_no_bar. Qed.
+Print Assumptions bar_absent_when_content_fits.
+
+(* --- bar_iff_overflow (bar half), child_width, bar_parts_nonneg_sum, thumb_leaves_top_iff, for every state (so
+       after every history), heights below 2^53: the content needs more rows than the view => a bar is drawn, never
+       an exception; the wrapped widget gets maxcol - bar width columns; the reported position is the window shown
+       and in range; top/thumb/bottom are >= 0 (thumb >= 1) and sum to the height; the thumb is off the top
+       exactly when the position is positive and the thumb is shorter than the view. *)
+Theorem bar_drawn_parts_and_thumb :
+  forall bs maxcol maxrow ob,
+    1 <= maxrow < 2 ^ 53 -> o_rows_w ob < 2 ^ 53 -> bobs_ok ob -> maxrow < o_rows_full ob ->
+    exists bs' b v,
+      b_render bs maxcol maxrow ob = Ok (bs', (Z.max 0 (maxcol - bar_width_raw bs), Some b, v)) /\
+      b_width b = maxcol - Z.max 0 (maxcol - bar_width_raw bs) /\
+      ow_size bs' = (Z.max 0 (maxcol - bar_width_raw bs), maxrow) /\
+      v_top v = trim_top (inner bs') /\
+      0 <= trim_top (inner bs') <= c_rows (o_canvas ob) - maxrow /\
+      v_shown v = maxrow /\ v_blank v = 0 /\
+      0 <= b_top b /\ 1 <= b_thumb b <= maxrow /\ 0 <= b_bottom b /\
+      b_top b + b_thumb b + b_bottom b = maxrow /\
+      (0 < b_top b <-> 0 < trim_top (inner bs') /\ b_thumb b < maxrow) /\
+      (b_top b, b_thumb b, b_bottom b) =
+        thumb_geom maxrow (trim_top (inner bs')) (o_rows_w ob - maxrow) (thumb_weight_of maxrow (o_rows_w ob)).
+Proof. exact b_render_bar. Qed.
+Print Assumptions bar_drawn_parts_and_thumb.
+
+(* ... and the thumb IS shorter than the view as soon as the view has two rows (heights up to 2^49): together with
+   the previous theorem, "the thumb leaves the top exactly when the first row is scrolled out of view".
+   (A one-row view has no room: the thumb fills it; ScrollBar.render then keeps top = 0, the fix: commit.) *)
+Theorem thumb_has_room_to_move :
+  forall maxrow rows pos,
+    2 <= maxrow <= 2 ^ 49 -> maxrow < rows ->
+    snd (fst (thumb_geom maxrow pos (rows - maxrow) (thumb_weight_of maxrow rows))) < maxrow.
+Proof. exact bar_thumb_has_room. Qed.
+Print Assumptions thumb_has_room_to_move.
+
+(* --- thumb_monotone: same view and content, larger position => the thumb does not move up *)
+Theorem thumb_monotone :
+  forall maxrow rows p1 p2,
+    1 <= maxrow < 2 ^ 53 -> rows < 2 ^ 53 -> 0 <= p1 <= p2 -> p2 <= Z.max 1 (rows - maxrow) ->
+    fst (fst (thumb_geom maxrow p1 (rows - maxrow) (thumb_weight_of maxrow rows))) <=
+    fst (fst (thumb_geom maxrow p2 (rows - maxrow) (thumb_weight_of maxrow rows))).
+Proof. exact bar_top_monotone. Qed.
+Print Assumptions thumb_monotone.
+
+(* --- the arithmetic alone, any thumb weight in [0,1] (covers the relative mode used for ListBox as well) *)
+Theorem bar_parts_nonneg_sum :
+  forall h pos pm tw,
+    1 <= h < 2 ^ 53 -> (0 <= tw <= 1)%Q -> 0 <= pos <= Z.max 1 pm -> Z.max 1 pm < 2 ^ 53 ->
+    let '(top, th, bot) := thumb_geom h pos pm tw in
+    0 <= top /\ 1 <= th <= h /\ 0 <= bot /\ top + th + bot = h.
+Proof. exact thumb_parts. Qed.
+Print Assumptions bar_parts_nonneg_sum.
+
+Theorem thumb_leaves_top_iff :
+  forall h pos pm tw,
+    1 <= h < 2 ^ 53 -> (0 <= tw <= 1)%Q -> 0 <= pos <= Z.max 1 pm -> Z.max 1 pm < 2 ^ 53 ->
+    let '(top, th, bot) := thumb_geom h pos pm tw in
+    (0 < top <-> 0 < pos /\ th < h).
+Proof. exact thumb_top_iff. Qed.
+Print Assumptions thumb_leaves_top_iff.
+
+(* ================================================================== the float model *)
+
+(* what the thumb theorems use about binary64 rounding - proved of the rational model, not assumed *)
+Theorem float_rounding_laws :
+  (forall x y, (0 <= x)%Q -> (x <= y)%Q -> (rn x <= rn y)%Q) /\
+  (forall n, 0 <= n < 2 ^ 53 -> (rn (inject_Z n) == inject_Z n)%Q) /\
+  (forall x, (0 < x)%Q -> (0 < rn x)%Q) /\
+  (forall x, (0 < x)%Q -> (rn x <= x * (1 + pow2 (-53)))%Q) /\
+  (forall x y, (x <= y)%Q -> rhe x <= rhe y) /\
+  (forall n, rhe (inject_Z n) = n).
+Proof.
+  repeat split.
+  - exact rn_mono. - exact rn_inject. - exact rn_positive. - exact rn_rel_err. - exact rhe_mono. - exact rhe_inject.
+Qed.
+Print Assumptions float_rounding_laws.
+
+(* the rational model against the kernel's primitive binary64 floats, whole finite grids (vm_compute):
+   the complete thumb computation, correctly rounded int/int division, float*int multiplication *)
+Theorem thumb_soft_float_agrees_with_primitive_floats :
+  (forall h r pos, 1 <= h <= 10 -> h < r <= 30 -> 0 <= pos <= r - h ->
+     thumb_prim h pos (r - h) h r = thumb_soft h pos (r - h) h r) /\
+  (forall a b, 0 <= a <= 100 -> 1 <= b <= 100 ->
+     (pf_to_Q (PrimFloat.div (pf_of_Z a) (pf_of_Z b)) == f_div_int_int a b)%Q) /\
+  (forall a b k, 0 <= a <= 20 -> 1 <= b <= 20 -> 0 <= k <= 12 ->
+     (pf_to_Q (PrimFloat.mul (PrimFloat.div (pf_of_Z a) (pf_of_Z b)) (pf_of_Z k))
+      == f_mul (f_div_int_int a b) (f_of_int k))%Q).
+Proof.
+  split; [exact thumb_prim_agrees|]. split; [exact prim_div_is_rn | exact prim_mul_is_rn].
+Qed.
+Print Assumptions thumb_soft_float_agrees_with_primitive_floats.
+
+(* ================================================================== non-vacuity *)
+
+(* 10 rows of content in a 4x3 view after set_scrollpos(-1): bottom-relative, clamped to 7, rows 7..9 shown *)
+Example ex_bottom_relative :
+  s_render (s_set_scrollpos sinit (-1)) 4 3 (CObs 4 10 None false)
+  = Ok (SState 7 ANone false None 0, View 7 3 0 0 0 None).
+Proof. vm_compute. reflexivity. Qed.
+
+(* page down from 2 in a 3-row view moves by 2; a huge position clamps to the end *)
+Example ex_page_down :
+  fst (fst (adjust_trim_top_gen 2 APageDown None 10 None (4, 3))) = 4 /\
+  fst (fst (adjust_trim_top_gen (2 ^ 60) ANone None 10 None (4, 3))) = 7.
+Proof. vm_compute. split; reflexivity. Qed.
+
+(* the hypotheses of the bar theorem are satisfiable, and the bar it computes is not trivial:
+   12 rows in a 6x5 view with a 1-column bar, position 3 of 7: top 1, thumb 2, bottom 2 *)
+Example ex_bar :
+  bobs_ok (BObs 12 (CObs 5 12 None false) 12) /\
+  b_render (BState (s_set_scrollpos sinit 3) 1 (0, 0)) 6 5 (BObs 12 (CObs 5 12 None false) 12)
+  = Ok (BState (SState 3 ANone false None 12) 1 (5, 5), (5, Some (Bar 1 1 2 2), View 3 5 0 0 0 None)).
+Proof. split; [unfold bobs_ok, ob_ok, cursor_ok; cbn; repeat split; discriminate || reflexivity | vm_compute; reflexivity]. Qed.
+
+(* floats: 49 * (1/49) is 0.9999999999999999 in binary64, so int() gives 0 where exact arithmetic gives 1 -
+   the rational model reproduces it (the forced 1-row top trough then applies) *)
+Example ex_float_inexact :
+  qtrunc (f_mul (f_of_int 49) (f_div (f_of_int 1) (f_of_int 49))) = 0 /\
+  thumb_geom 50 1 49 (thumb_weight_of 50 99) = (1, 25, 24).
+Proof. vm_compute. split; reflexivity. Qed.
+
+(* a wrapped widget that takes 'down' keeps the view where it is; one that does not lets it scroll *)
+Example ex_handled_key :
+  let st := SState 2 ANone true None 0 in
+  action (fst (s_keypress st false KDown (KObs false None true KOther))) = ANone /\
+  action (fst (s_keypress st false KDown (KObs false None false KDown))) = ALineDown.
+Proof. vm_compute. split; reflexivity. Qed.
